@@ -177,13 +177,9 @@ func discoverScopeRoles(c *Ctx) *scopeRoles {
 			continue
 		}
 		eachInstr(g, func(_ *ssa.BasicBlock, _ int, in ssa.Instruction) {
-			if s, ok := in.(*ssa.Store); ok {
-				if b, isB := constBool(s.Val); isB && b {
-					if fa, ok := s.Addr.(*ssa.FieldAddr); ok && len(g.Params) > 0 && fa.X == ssa.Value(g.Params[0]) && strings.HasPrefix(fieldName(fa), "scope.Scope.") && r.closed == "" {
-						n := fieldName(fa)
-						r.closed = n[strings.LastIndex(n, ".")+1:]
-					}
-				}
+			// x.F = true, or atomic.StoreT(&x.F, non-zero)
+			if n := flagSetInstr(in); strings.HasPrefix(n, "scope.Scope.") && r.closed == "" {
+				r.closed = n[strings.LastIndex(n, ".")+1:]
 			}
 		})
 	}
@@ -260,12 +256,8 @@ func rulesC11(c *Ctx) {
 		if w := tableLoopWord(in, names, bind); w != "" {
 			return w
 		}
-		if st, ok := in.(*ssa.Store); ok {
-			if fa, ok := st.Addr.(*ssa.FieldAddr); ok && fieldName(fa) == "scope.Scope."+sro.closed {
-				if b, ok := constBool(st.Val); ok && b {
-					return "set-closed"
-				}
-			}
+		if flagSetInstr(in) == "scope.Scope."+sro.closed {
+			return "set-closed"
 		}
 		ci := callInfo(in, nil, 0)
 		if ci == nil || ci.Kind != "call" {
@@ -417,10 +409,8 @@ func rulesC11(c *Ctx) {
 	pan := 0
 	eachInstr(guardF, func(b *ssa.BasicBlock, _ int, in ssa.Instruction) {
 		if _, ok := in.(*ssa.Panic); ok {
-			for k := range gf.At(b) {
-				if n, _ := fieldLoadName(k.v); n == sro.closed && k.pol {
-					pan++
-				}
+			if set, known := flagKnownIn(gf.At(b), "scope.Scope."+sro.closed); known && set {
+				pan++
 			}
 		}
 	})
